@@ -216,6 +216,7 @@ def tbLine (d : TBDrv) (lineNo : Nat) (ts : List String) : TBDrv × List String 
   | ["pause"] => silent "pause" (pause m)
   | ["close"] => silent "close" (close m)
   | ["release"] => silent "release" (release m)
+  | ["burst-end"] => ({ d with pending := some { label := "burst-end", line := lineNo, implOk := true, membership := false } }, [])
   | ["start"] => silent "start" (start m)
   | ["autojoin"] => ({ d with model := some (autoJoinStale m), cnt := d.cnt.bump "autojoin-stale" }, [])
   | "setup" :: rest =>
